@@ -1,5 +1,12 @@
-"""C06 - decided with Engine.tla (see engine.py)."""
-import engine
+"""C06 - decided with Engine.tla (see engine.py) and, for acknowledgement after the store returned, Batcher.tla (batcher.py)."""
+import json
+import engine, batcher
 LEVEL = engine.LEVEL
-def run(ctx): engine.run_prop(ctx, "C06")
-def replay(ctx, path): engine.replay_prop(ctx, "C06", path)
+def run(ctx):
+    engine.run_prop(ctx, "C06")
+    batcher.part(ctx, "C06")
+def replay(ctx, path):
+    art = json.load(open(path))
+    if art["replay"].get("kind") == "batcher-word":
+        return batcher.replay(ctx, "C06", art)
+    engine.replay_prop(ctx, "C06", path)
